@@ -43,9 +43,11 @@ class SadMonitor:
     def __init__(self, ck, prefix=''):
         self.ck, self.prefix = ck, prefix
         self.broken = set()     # endpoints already reported in this run (first cause only)
+        self.faulted = set()
 
     def reset(self):
         self.broken = set()
+        self.faulted = set()
 
     def on_step(self, sim, ep, rec):
         ck = self.ck
@@ -55,6 +57,10 @@ class SadMonitor:
             ck.count(f'sad.nl.{name}')
             if r.get('fault'):
                 ck.count(f'sad.fault.{name}')
+                self.faulted.add(ep.name)
+            elif r['error'] != 0 and ep.name in self.faulted:
+                # after an injected refusal the daemon may legitimately try to delete an SA that was never installed
+                ck.count(f'sad.cleanup_refusal.{name}')
             elif r['error'] != 0 and ep.name not in self.broken:
                 self.broken.add(ep.name)
                 ck.violation(f'{self.prefix}kernel-refused-unprompted:{name}:{r["error"]}@{ctx_of(rec)}',
